@@ -961,9 +961,9 @@ func doCall(ctx context.Context, c *api.Client, rec *CallRecord) {
 		if r.coin() {
 			req.Deep.SetTo(makeRange(tag, r))
 		}
-		// meta is always sent: an unset optional member whose part is JSON-encoded is written as an empty part by
-		// the generated client and refused by the server (DESIGN.md 10.8, observed by the deliverable audit)
-		req.Meta.SetTo(makeRange(tag, r))
+		if r.coin() {
+			req.Meta.SetTo(makeRange(tag, r)) // a JSON-encoded part; unset: no part at all (F-10, repaired)
+		}
 		if r.coin() {
 			req.Labels = []string{"l1-" + tag, "l 2 " + tag}
 		}
